@@ -24,6 +24,13 @@ arm of 'SWno'); the SWspdt arm is outside C02's model and is skipped (recorded).
 import ast
 import hashlib
 import os
+import warnings
+
+
+def _parse(src):
+    with warnings.catch_warnings():
+        warnings.simplefilter('ignore')
+        return ast.parse(src)
 
 
 class Untranslatable(Exception):
@@ -42,7 +49,7 @@ class SwitchTranslation:
         self.path = os.path.join(repo, 'lcapy', 'mnacpts.py')
         src = open(self.path).read()
         self.sha = hashlib.sha256(src.encode()).hexdigest()
-        tree = ast.parse(src)
+        tree = _parse(src)
         cls = None
         for n in tree.body:
             if isinstance(n, ast.ClassDef) and n.name == 'SW':
@@ -172,8 +179,178 @@ class SwitchTranslation:
                    self._cmp_coq(self.before), self._cmp_coq(self.after), arm('SWno'), arm('SWnc')))
 
 
+class ConvertTranslation:
+    """Fail-closed translation of the loop of Netlist.convert_IVP (lcapy/netlist.py) into a
+    TimeDomSwitch.loopdef.  Recognised shape (anything else raises Untranslatable):
+
+        times = self.switching_times()
+        if times == (): ... return self
+        if t < times[0]: return self.replace_switches(t)
+        cct = self  [; before = None] [; tprev = 0]
+        for m, time in enumerate(times):
+            if time > t: break                                  (or >=)
+            if before is None:  before = <recv>.replace_switches_before(time); T = <texp>
+            else:               before = <bexp>;                               T = <texp>
+          | before = <recv>.replace_switches_before(time)       (the same on every iteration)
+            cct = <recv>.replace_switches(time).initialize(before, <texp or T>)
+            [tprev = time]
+        [time = tprev] [if time != 0: warn(...)]
+        return cct
+      <recv> ::= self | cct      <bexp> ::= cct | <recv>.replace_switches_before(time)
+      <texp> ::= time | time - tprev | 0
+    """
+
+    def __init__(self, repo):
+        self.path = os.path.join(repo, 'lcapy', 'netlist.py')
+        src = open(self.path).read()
+        self.sha = hashlib.sha256(src.encode()).hexdigest()
+        tree = _parse(src)
+        fn = None
+        for n in ast.walk(tree):
+            if isinstance(n, ast.FunctionDef) and n.name == 'convert_IVP':
+                fn = n
+        if fn is None:
+            raise Untranslatable('%s: convert_IVP not found' % self.path)
+        self.line = fn.lineno
+        if [a.arg for a in fn.args.args] != ['self', 't']:
+            raise Untranslatable('%s: signature' % _loc(self.path, fn))
+        body = [st for st in fn.body if not (isinstance(st, ast.Expr) and isinstance(st.value, ast.Constant))]
+        U = ast.unparse
+        have = {'times': False, 'early': False, 'cct': False, 'before_none': False, 'tprev0': False, 'ret': False}
+        loop = None
+        for st in body:
+            u = U(st)
+            if isinstance(st, ast.Assign) and u == 'times = self.switching_times()':
+                have['times'] = True
+            elif isinstance(st, ast.If) and U(st.test) == 'times == ()':
+                if not (isinstance(st.body[-1], ast.Return) and U(st.body[-1].value) == 'self') or st.orelse:
+                    raise Untranslatable('%s: no-switch branch' % _loc(self.path, st))
+            elif isinstance(st, ast.If) and U(st.test) == 't < times[0]':
+                if len(st.body) != 1 or not isinstance(st.body[0], ast.Return) or U(st.body[0].value) != 'self.replace_switches(t)' or st.orelse:
+                    raise Untranslatable('%s: branch before the first instant' % _loc(self.path, st))
+                have['early'] = True
+            elif isinstance(st, ast.Assign) and u == 'cct = self':
+                have['cct'] = True
+            elif isinstance(st, ast.Assign) and u == 'before = None':
+                have['before_none'] = True
+            elif isinstance(st, ast.Assign) and u == 'tprev = 0':
+                have['tprev0'] = True
+            elif isinstance(st, ast.For):
+                if loop is not None or U(st.target) != '(m, time)' or U(st.iter) != 'enumerate(times)' or st.orelse:
+                    raise Untranslatable('%s: loop header %s in %s' % (_loc(self.path, st), U(st.target), U(st.iter)))
+                if not (have['times'] and have['early'] and have['cct']):
+                    raise Untranslatable('%s: loop before its initialisation' % _loc(self.path, st))
+                loop = st
+            elif isinstance(st, ast.Assign) and u == 'time = tprev' and loop is not None:
+                pass
+            elif isinstance(st, ast.If) and U(st.test) == 'time != 0' and loop is not None and all(isinstance(x, ast.Expr) for x in st.body) and not st.orelse:
+                pass        # only a warning
+            elif isinstance(st, ast.Return) and U(st.value) == 'cct' and loop is not None:
+                have['ret'] = True
+            else:
+                raise Untranslatable('%s: statement %s' % (_loc(self.path, st), u[:60]))
+        if loop is None or not have['ret']:
+            raise Untranslatable('%s: loop / return cct not found' % _loc(self.path, fn))
+        self.strict = None
+        first = nxt = None        # (bexp, texp)
+        self.after = None
+        tprev_set = False
+        Tinline = None
+        pend_b = pend_T = None
+        seen_init = False
+
+        def recv(e):
+            if isinstance(e, ast.Name) and e.id == 'self':
+                return 'RSelf'
+            if isinstance(e, ast.Name) and e.id == 'cct':
+                return 'RCur'
+            raise Untranslatable('%s: receiver %s' % (_loc(self.path, e), U(e)))
+
+        def bexp(e):
+            if isinstance(e, ast.Name) and e.id == 'cct':
+                return 'BCur'
+            if isinstance(e, ast.Call) and isinstance(e.func, ast.Attribute) and e.func.attr == 'replace_switches_before' and len(e.args) == 1 and U(e.args[0]) == 'time' and not e.keywords:
+                return '(BBefore %s)' % recv(e.func.value)
+            raise Untranslatable('%s: before = %s' % (_loc(self.path, e), U(e)))
+
+        def texp(e):
+            u = U(e)
+            if u == 'time':
+                return 'TTime'
+            if u == 'time - tprev':
+                return 'TRel'
+            if u == '0':
+                return 'TZero'
+            raise Untranslatable('%s: T = %s' % (_loc(self.path, e), u))
+
+        def branch(stmts):
+            b = T = None
+            for x in stmts:
+                if isinstance(x, ast.Expr) and isinstance(x.value, ast.Constant):
+                    continue
+                if isinstance(x, ast.Assign) and len(x.targets) == 1 and isinstance(x.targets[0], ast.Name) and x.targets[0].id == 'before' and b is None:
+                    b = bexp(x.value)
+                elif isinstance(x, ast.Assign) and len(x.targets) == 1 and isinstance(x.targets[0], ast.Name) and x.targets[0].id == 'T' and T is None:
+                    T = texp(x.value)
+                else:
+                    raise Untranslatable('%s: statement %s' % (_loc(self.path, x), U(x)[:60]))
+            return b, T
+        for st in loop.body:
+            u = U(st)
+            if isinstance(st, ast.If) and isinstance(st.test, ast.Compare) and U(st.test.left) == 'time' and U(st.test.comparators[0]) == 't' \
+                    and type(st.test.ops[0]) in (ast.Gt, ast.GtE) and len(st.body) == 1 and isinstance(st.body[0], ast.Break) and not st.orelse:
+                if self.strict is not None or seen_init or first is not None or pend_b is not None:
+                    raise Untranslatable('%s: position of the break test' % _loc(self.path, st))
+                self.strict = isinstance(st.test.ops[0], ast.Gt)
+            elif isinstance(st, ast.If) and U(st.test) == 'before is None':
+                if not have['before_none'] or first is not None or pend_b is not None:
+                    raise Untranslatable('%s: `before is None` without `before = None`' % _loc(self.path, st))
+                first = branch(st.body)
+                nxt = branch(st.orelse)
+            elif isinstance(st, ast.Assign) and len(st.targets) == 1 and isinstance(st.targets[0], ast.Name) and st.targets[0].id in ('before', 'T') and not seen_init and first is None:
+                b, T = branch([st])
+                pend_b = b if b is not None else pend_b
+                pend_T = T if T is not None else pend_T
+            elif isinstance(st, ast.Assign) and len(st.targets) == 1 and U(st.targets[0]) == 'cct' and not seen_init:
+                c = st.value
+                ok = (isinstance(c, ast.Call) and isinstance(c.func, ast.Attribute) and c.func.attr == 'initialize' and len(c.args) == 2 and not c.keywords
+                      and U(c.args[0]) == 'before' and isinstance(c.func.value, ast.Call) and isinstance(c.func.value.func, ast.Attribute)
+                      and c.func.value.func.attr == 'replace_switches' and len(c.func.value.args) == 1 and U(c.func.value.args[0]) == 'time' and not c.func.value.keywords)
+                if not ok:
+                    raise Untranslatable('%s: %s' % (_loc(self.path, st), u[:80]))
+                self.after = recv(c.func.value.func.value)
+                if U(c.args[1]) != 'T':
+                    Tinline = texp(c.args[1])
+                seen_init = True
+            elif isinstance(st, ast.Assign) and u == 'tprev = time' and seen_init:
+                tprev_set = True
+            else:
+                raise Untranslatable('%s: loop statement %s' % (_loc(self.path, st), u[:60]))
+        if self.strict is None or not seen_init:
+            raise Untranslatable('%s: break test / initialize call not found' % _loc(self.path, loop))
+        if first is None:
+            first = nxt = (pend_b, pend_T)
+        first = (first[0], first[1] if first[1] is not None else Tinline)
+        nxt = (nxt[0], nxt[1] if nxt[1] is not None else Tinline)
+        if None in first or None in nxt:
+            raise Untranslatable('%s: before / T not assigned on every path' % _loc(self.path, loop))
+        if not first[0].startswith('(BBefore'):
+            raise Untranslatable('%s: the first `before` is not a replace_switches_before call' % _loc(self.path, loop))
+        if 'TRel' in (first[1], nxt[1]) and not (tprev_set and have['tprev0']):
+            raise Untranslatable('%s: tprev used but not maintained' % _loc(self.path, loop))
+        self.first, self.next = first, nxt
+        self.loop_src = ' ; '.join(U(x).replace('\n', ' ') for x in loop.body)
+
+    def coq_defs(self):
+        fb = self.first[0][len('(BBefore '):-1]
+        return ('(* GENERATED by tools/tr_switch.py from lcapy/netlist.py (sha256 %s), convert_IVP at line %d.\n   loop body: %s *)\n'
+                'Definition loop_gen : loopdef := LoopDef %s %s %s %s %s %s.\n'
+                % (self.sha[:16], self.line, self.loop_src.replace('*)', '* )')[:600], 'true' if self.strict else 'false', fb, self.first[1], self.next[0], self.next[1], self.after))
+
+
 if __name__ == '__main__':
     import sys
     tr = SwitchTranslation(sys.argv[1] if len(sys.argv) > 1 else '/repo')
     print(tr.coq_defs())
     print('(* skipped arms: %s *)' % tr.skipped)
+    print(ConvertTranslation(sys.argv[1] if len(sys.argv) > 1 else '/repo').coq_defs())
